@@ -85,11 +85,12 @@ func runKvSequence(ops []kvOp, seq int, backends []string, out *ndw, kinds map[s
 		provs := map[string]prov{}
 		curT, curS := 0, ""
 		ctx := context.Background() // carries the caller's language ("Language" context value), as the engine does
-		for i, o := range ops {
+		emitted := 0
+		for _, o := range ops {
 			if o.Op == "dump" && be != "fs" && be != "fsbin" && be != "pg" {
 				continue // listings: the filesystem backend (C10 and C11) and the Postgres driver's key-range scan (C11 only)
 			}
-			ev := kvEvent{Ev: "kv", Backend: be, Seq: seq, First: i == 0, O: kvOp{o.Op, o.T, enc(o.S), enc(o.K), enc(o.V), o.B}, List: []kvPair{}}
+			ev := kvEvent{Ev: "kv", Backend: be, Seq: seq, First: emitted == 0, O: kvOp{o.Op, o.T, enc(o.S), enc(o.K), enc(o.V), o.B}, List: []kvPair{}}
 			func() {
 				defer func() {
 					if r := recover(); r != nil {
@@ -177,6 +178,7 @@ func runKvSequence(ops []kvOp, seq int, backends []string, out *ndw, kinds map[s
 			}()
 			kinds[fmt.Sprintf("%s/%s/%s/t%d", be, o.Op, ev.Res, curT)]++
 			out.put(ev)
+			emitted++
 			if ev.Res == "panic" {
 				break
 			}
